@@ -426,7 +426,9 @@ static void run_case(Case &c)
         for(int i = 0; i < nthreads; i++) { ctx[(size_t)i].index = i; ctx[(size_t)i].h = &hs[(size_t)i]; ctx[(size_t)i].yseed = r.next(); ctx[(size_t)i].barrier = &barrier; ctx[(size_t)i].ticket = &ticket; ctx[(size_t)i].in_call = in_call; ctx[(size_t)i].overlap_with.assign(8, 0); ctx[(size_t)i].pre = NULL; }
         // about a third of the instances are created and configured here, on the main thread, and handed to their thread
         std::vector<Runner *> handed;
-        for(int i = 0; i < nthreads; i++) if(r.chance(0.35)) { Runner *pr = new Runner(); pr->open(hs[(size_t)i]); ctx[(size_t)i].pre = pr; handed.push_back(pr); count("instances_created_on_the_main_thread_and_run_on_another"); }
+        // (under ThreadSanitizer creating an instance costs seconds: one hand-off per case at most there)
+        const double hand_p = g_w.variant == "tsan" ? 0.5 / nthreads : 0.35;
+        for(int i = 0; i < nthreads; i++) if(r.chance(hand_p)) { Runner *pr = new Runner(); pr->open(hs[(size_t)i]); ctx[(size_t)i].pre = pr; handed.push_back(pr); count("instances_created_on_the_main_thread_and_run_on_another"); }
         for(int i = 0; i < nthreads; i++) pthread_create(&th[(size_t)i], NULL, thread_main, &ctx[(size_t)i]);
         for(int i = 0; i < nthreads; i++) pthread_join(th[(size_t)i], NULL);
         pthread_barrier_destroy(&barrier);
